@@ -45,7 +45,15 @@ func (g *c04gen) payload(n int) []byte {
 	k := len(g.poison)
 	marker := fmt.Sprintf("POISON%d", k)
 	g.poison = append(g.poison, marker, fmt.Sprintf("PZN%d", k))
+	// three shapes: the command-like text follows a line break inside the payload, starts the payload (what a
+	// server that wrongly invited the payload would read as its next command), or follows an empty line
 	core := fmt.Sprintf("x\r\nPZN%d DELETE %s\r\nPZN%d NOOP\r\n", k, marker, k)
+	switch g.t.Choose(3) {
+	case 1:
+		core = fmt.Sprintf("PZN%d NOOP\r\nPZN%d DELETE %s\r\n", k, k, marker)
+	case 2:
+		core = fmt.Sprintf("\r\nPZN%d NOOP\r\nPZN%d CREATE %s\r\n", k, k, marker)
+	}
 	if n == 0 {
 		return nil
 	}
